@@ -540,6 +540,10 @@ class Ops(object):
                     return v
             if isinstance(base.cls, NamedTupleClass):
                 raise PyRaise('AttributeError', ExcInst('AttributeError'))
+            if getattr(base, 'from_domain', False) and isinstance(base.cls, ClassRef) and self.world.class_assigns_attr(base.cls, name):
+                # an instance attribute the real object has (some method of the class assigns it) but the contract's object model does
+                # not describe: its value is unknown here, which is not the same as "no such attribute"
+                raise OutOfReach('attribute %s of %s is not part of the object model of this contract' % (name, base.cls.name))
             raise PyRaise('AttributeError', ExcInst('AttributeError'))
         if isinstance(base, ClassRef):
             m = base.find_method(name)
